@@ -109,6 +109,44 @@ Theorem C11_rewards_py_support_is_the_model :
 Proof. exact (fun r => conj (gen_supports_lc_eq r) (gen_supports_bc_eq r)). Qed.
 Print Assumptions C11_rewards_py_support_is_the_model.
 
+(* ---- the SOURCE of the two-dimensional spectrum class (SFS2.fold / symmetrize, pinned on every run by translate/spectrum2coq.py into
+   gen/SpectrumGen.v): folding adds the (up to) four mirrored entries, counts the middle bin once and leaves zeros outside the folded block;
+   it is additive and maps an outer product to the outer product of the folded vectors - so the fold of the covariance matrix of the bins is
+   the covariance matrix of the FOLDED bins (the second-order form of "the folded spectrum is the fold of the unfolded one") ---- *)
+From PG Require Import gen.NpSfs gen.SpectrumGen proofs.GenSfsEquiv proofs.GenSpectrumEquiv.
+Theorem C11_spectrum_py_fold_entry :
+  forall N (D : list (list R)) a b, sq N D -> (a < N)%nat -> (b < N)%nat ->
+    let w := SFS2_w N in
+    mget OpsR (SFS2_fold OpsR N D) a b
+    = (ind (Nat.ltb a w) * ind (Nat.ltb b w) * mget OpsR D a b
+       + ind (Nat.ltb a (N - w)) * ind (Nat.ltb b w) * mget OpsR D (N - 1 - a) b
+       + ind (Nat.ltb a w) * ind (Nat.ltb b (N - w)) * mget OpsR D a (N - 1 - b)
+       + ind (Nat.ltb a (N - w)) * ind (Nat.ltb b (N - w)) * mget OpsR D (N - 1 - a) (N - 1 - b))%R.
+Proof. exact fold_entry. Qed.
+Theorem C11_spectrum_py_fold_of_outer_product_and_sum :
+  (forall N (x y : list R) a b, length x = N -> length y = N -> (a < N)%nat -> (b < N)%nat ->
+     mget OpsR (SFS2_fold OpsR N (outer OpsR x y)) a b = (fold_vec N x a * fold_vec N y b)%R) /\
+  (forall N (A B : list (list R)) a b, sq N A -> sq N B -> (a < N)%nat -> (b < N)%nat ->
+     mget OpsR (SFS2_fold OpsR N (Matrix.madd OpsR A B)) a b = (mget OpsR (SFS2_fold OpsR N A) a b + mget OpsR (SFS2_fold OpsR N B) a b)%R).
+Proof. split; [exact fold_of_outer_product | exact fold_is_additive]. Qed.
+Theorem C11_spectrum_py_fold_shape :
+  (forall N (D : list (list R)) a b, sq N D -> (a < N)%nat -> (b < N)%nat -> (SFS2_w N <= a \/ SFS2_w N <= b)%nat ->
+     mget OpsR (SFS2_fold OpsR N D) a b = 0%R) /\
+  (forall N (D : list (list R)), sq N D -> (forall a b, (a < N)%nat -> (b < N)%nat -> mget OpsR D a b = mget OpsR D b a) ->
+     forall a b, (a < N)%nat -> (b < N)%nat -> mget OpsR (SFS2_fold OpsR N D) a b = mget OpsR (SFS2_fold OpsR N D) b a) /\
+  (forall N (D : list (list R)) b, sq N D -> (N = 2 * (N - SFS2_w N) + 1)%nat -> (b < N - SFS2_w N)%nat ->
+     mget OpsR (SFS2_fold OpsR N D) (N - SFS2_w N) b = (mget OpsR D (N - SFS2_w N) b + mget OpsR D (N - SFS2_w N) (N - 1 - b))%R
+     /\ mget OpsR (SFS2_fold OpsR N D) (N - SFS2_w N) (N - SFS2_w N) = mget OpsR D (N - SFS2_w N) (N - SFS2_w N)).
+Proof. split; [exact fold_outside_is_zero | split; [exact fold_keeps_symmetry | exact fold_middle_bin]]. Qed.
+Theorem C11_spectrum_py_symmetrize_entry :
+  forall N (D : list (list R)) a b, sq N D -> (a < N)%nat -> (b < N)%nat ->
+    mget OpsR (SFS2_symmetrize OpsR N D) a b = ((mget OpsR D a b + mget OpsR D b a) / 2)%R.
+Proof. exact symmetrize_entry. Qed.
+Print Assumptions C11_spectrum_py_fold_entry.
+Print Assumptions C11_spectrum_py_fold_of_outer_product_and_sum.
+Print Assumptions C11_spectrum_py_fold_shape.
+Print Assumptions C11_spectrum_py_symmetrize_entry.
+
 From mathcomp Require Import all_ssreflect all_algebra.
 From PG Require Import proofs.ExpLaws analysis.Rstruct analysis.RSums analysis.MExp analysis.MExpLaws
                        proofs.ExpLaws2.
